@@ -37,16 +37,21 @@ def check(case):
     text = "\n".join(lines)
     def fail(sig, what):
         fails.append(dict(signature="C16:" + sig, what=what, case=dict(version=version, lines=lines, rm=rm, via=via),
-                          reproducer="import gfapy\ng = gfapy.Gfa(%r)\n%s%sprint(sorted(sorted(s.name for s in c) for c in g.connected_components()), g.n_dovetails, g.n_containments, g.n_internals, g.n_dead_ends)" % (lines, ("g.rm(%r)\n" % rm) if rm else "", COPY if via == "copy" else "")))
+                          reproducer="import gfapy\ng = gfapy.Gfa(%r)\n%s%sprint(sorted(sorted(s.name for s in c) for c in g.connected_components()), g.n_dovetails, g.n_containments, g.n_internals, g.n_dead_ends)" % (lines, ("# remove the line %r\n" % (rm[1],)) if isinstance(rm, tuple) else ("g.rm(%r)\n" % rm) if rm else "", COPY if via == "copy" else "")))
     try:
         g = gfapy.Gfa(lines, vlevel=1)
         tm = oracle.TextModel(text, version)
-        if rm:
+        if isinstance(rm, tuple):
+            # removal of an edge record (by its written form: the first line written like that)
+            from bounded import histories, state
+            state.apply_step(g, ("rm_line", rm[1]))
+            histories.apply_model(tm, ("rm_line", rm[1]), set())
+        elif rm:
             g.rm(rm); tm.rm(rm)
         # a refused line (an edge from a segment to an identifier carried by an edge / path: not a segment) is not part of the document
         segs = [tm.name_of(r) for r in tm.recs if r.rt == "S"]
         named = [tm.name_of(r) for r in tm.recs if r.rt in ("E", "L", "C", "P", "O", "U", "G") and tm.name_of(r)]
-        if segs and named and (len(lines) + len(rm or "")) % 2 == 0:
+        if segs and named and (len(lines) + len(rm if isinstance(rm, str) else "")) % 2 == 0:
             ref = "L\t%s\t+\t%s\t+\t*" % (segs[0], named[0]) if version == "gfa1" else "E\t*\t%s+\t%s+\t6\t8$\t0\t2\t*" % (segs[0], named[0])
             try:
                 g.add_line(ref)
@@ -118,6 +123,14 @@ def cases(tier, seed):
             if rng.random() < 0.5:
                 lines.append("P\tpz\tA+\t*" if version == "gfa1" else "O\tpz\tA+")      # a named line that is not a segment (no effect on the topology)
             rm = rng.choice([None, None, rng.choice(segs)])
+            if keep and rng.random() < 0.25:
+                rm = ("line", rng.choice(keep))                      # an edge record is removed instead of a segment
+            if rng.random() < 0.4:
+                # the records arrive in another order (edges before their segments: the segments are placeholders first)
+                named = [l for l in lines if l[0] in "PO"]
+                rest = [l for l in lines if l[0] not in "PO"]
+                rng.shuffle(rest)
+                lines = rest + named
             out.append((version, lines, rm, rng.choice(["direct", "direct", "copy"])))
     # graphs much larger than the sampled ones: a chain and a ring of 1200 segments (deeper than the interpreter's recursion limit), two chains
     for version, seg, link in (("gfa1", lambda i: "S\ts%d\t*" % i, lambda i, j: "L\ts%d\t+\ts%d\t+\t*" % (i, j)),
@@ -135,6 +148,6 @@ if __name__ == "__main__":
     cs = cases(tier, seed)
     res = harness.run(cs, check,
                       rule="seeded random graphs: 1-4 segments, 0-5 edges from an orientation-complete pool (GFA1: L for every segment pair incl. self-links and hairpins, C; GFA2: E lines for every orientation pair x "
-                           "interval kinds pfx/sfx/whole/inner on both sides; in 30% of the graphs one record without identifier is given twice), optionally followed by rm of one segment, and in a third of the cases rebuilt line by line from clones (g2.add_line(l.clone())); oracle = union-find over the dovetail records of the (text-model) document and record counts. "
+                           "interval kinds pfx/sfx/whole/inner on both sides; in 30% of the graphs one record without identifier is given twice), in 40% of the cases with the records in a random order (edges before their segments), optionally followed by rm of one segment or of one edge record, and in a third of the cases rebuilt line by line from clones (g2.add_line(l.clone())); oracle = union-find over the dovetail records of the (text-model) document and record counts. "
                            "distinct = distinct (document, removal)", bound="<=4 segments, <=5 edges, <=1 removal; plus 3 graphs of 1200 segments per version (chain, ring, two chains)", exhaustive=False)
     harness.emit(res)
